@@ -2,6 +2,7 @@ package main
 
 import (
 	"go/constant"
+	"go/token"
 	"go/types"
 	"sort"
 	"strings"
@@ -339,8 +340,21 @@ func ruleLabelIdentity(r *Run) {
 					bad = true
 					o.Fail(r.pos(sets[0].Pos()), "the value is %s, not the ranged capture", describe(vc.Call.Args[0], 0))
 				}
+				// every named capture is exposed: inside the loop the Set call is guarded by the
+				// presence of a mapping for the group and by nothing else (an empty capture is a value)
+				for _, f := range factsAt(sets[0].Block()) {
+					in, isInstr := f.Cond.(ssa.Instruction)
+					if !isInstr || !loop.Blocks[in.Block()] || in.Block() == loop.Header {
+						continue // outside the loop, or the loop's own bound test
+					}
+					if ex, ok := f.Cond.(*ssa.Extract); ok && ex.Index == 1 && ex.Tuple == ssa.Value(lk) && f.Truth {
+						continue
+					}
+					bad = true
+					o.Fail(r.pos(sets[0].Pos()), "a capture is exposed only under the additional condition %s == %v: some named groups of a matching line are silently skipped", describe(f.Cond, 1), f.Truth)
+				}
 				if !bad && o.Status != Violated {
-					o.OK("Set(mapping[i], match_i)").At(r.pos(fn.Pos()))
+					o.OK("Set(mapping[i], match_i) for every mapped group").At(r.pos(fn.Pos()))
 				}
 			}
 		}
@@ -717,4 +731,75 @@ func ruleJSONPathWalk(r *Run) {
 		o.OK("extract under current.Equal(p)").At(r.pos(fn.Pos()))
 	}
 	_ = sort.Strings
+}
+
+// ruleStructEquality: an equality method over a slice of structs compares whole elements: it
+// delegates to slices.Equal / == on the element, or compares every field of the element type.
+func ruleStructEquality(r *Run, rel, recv, method string) {
+	p := r.P
+	fn := p.Method(rel, recv, method)
+	o := r.Ob("PV-WHOLE", shortRel(rel)+"."+recv+"."+method, "equality of "+recv+" values compares every field of every element (no field is left out of the comparison)")
+	if fn == nil {
+		o.Fail("-", "method not found")
+		return
+	}
+	// element struct type
+	var st *types.Struct
+	if sl, ok := fn.Params[0].Type().Underlying().(*types.Slice); ok {
+		st, _ = sl.Elem().Underlying().(*types.Struct)
+	} else {
+		st, _ = fn.Params[0].Type().Underlying().(*types.Struct)
+	}
+	if st == nil {
+		o.Undecide(r.pos(fn.Pos()), "receiver is not a struct or a slice of structs")
+		return
+	}
+	for _, gf := range funcGroup(fn) {
+		for _, c := range callsIn(gf) {
+			if pk, nm := calleePkgName(c); pk == "slices" && (nm == "Equal") {
+				o.OK("delegates to slices.Equal").At(r.pos(fn.Pos()))
+				return
+			}
+		}
+	}
+	compared := map[string]bool{}
+	whole := false
+	for _, gf := range funcGroup(fn) {
+		allInstrs(gf, func(in ssa.Instruction) {
+			b, ok := in.(*ssa.BinOp)
+			if !ok || (b.Op != token.EQL && b.Op != token.NEQ) {
+				return
+			}
+			if _, isStruct := b.X.Type().Underlying().(*types.Struct); isStruct {
+				whole = true
+				return
+			}
+			fx, _, okx := loadOfField(b.X)
+			fy, _, oky := loadOfField(b.Y)
+			if !okx {
+				fx, _, okx = fieldNameOf(b.X)
+			}
+			if !oky {
+				fy, _, oky = fieldNameOf(b.Y)
+			}
+			if okx && oky && fx == fy {
+				compared[fx] = true
+			}
+		})
+	}
+	if whole {
+		o.OK("compares whole elements with ==").At(r.pos(fn.Pos()))
+		return
+	}
+	var missing []string
+	for i := 0; i < st.NumFields(); i++ {
+		if !compared[canonName(st.Field(i))] {
+			missing = append(missing, st.Field(i).Name())
+		}
+	}
+	if len(missing) > 0 {
+		o.Fail(r.pos(fn.Pos()), "field(s) %v of the element type are not compared: values that differ only there are treated as equal", missing)
+		return
+	}
+	o.OK("compares all %d fields", st.NumFields()).At(r.pos(fn.Pos()))
 }
